@@ -558,3 +558,89 @@ func (g *scriptGen) steps(n int, wNote, wAct, wRel int, avoidExit bool) {
 }
 
 func evdevCode(c uint16) evdev.EvCode { return evdev.EvCode(c) }
+
+// quantifierOK reports whether a script stays inside what the statements about actions quantify over: no action
+// pressed while a complete up/down pair of action keys is held, and - where hats trigger actions too - no key and
+// hat holding the same action or the two halves of one pair, and one deflected action hat at a time. The generators
+// obey this by construction; the minimiser uses it to reject shrunk scripts that fail for another reason.
+func quantifierOK(d *model.Desc, script []model.Event) bool {
+	actOf := map[uint16]string{}
+	for _, a := range d.Actions {
+		actOf[a.Code] = a.Action
+	}
+	hats := map[uint16]model.AxisDesc{}
+	for _, m := range d.Mappings {
+		for _, sa := range m.Analog {
+			for _, a := range sa.Axes {
+				if a.Type == "action" && a.Min == -1 && a.Max == 1 {
+					if _, ok := hats[a.Code]; !ok {
+						hats[a.Code] = a
+					}
+				}
+			}
+		}
+	}
+	keyAct := map[string]bool{}
+	pos := map[uint16]int32{}
+	hatAction := func(a model.AxisDesc, v int32) string {
+		if a.Flip {
+			v = -v
+		}
+		if v > 0 && a.Action != nil {
+			return *a.Action
+		}
+		if v < 0 && a.ActionNeg != nil {
+			return *a.ActionNeg
+		}
+		return ""
+	}
+	pairHeld := func() bool {
+		for x := range keyAct {
+			if p := partnerOf(x); p != "" && keyAct[p] {
+				return true
+			}
+		}
+		return false
+	}
+	for _, e := range script {
+		switch e.Kind {
+		case "key":
+			a, ok := actOf[e.Code]
+			if !ok {
+				continue
+			}
+			switch e.Value {
+			case 1:
+				if pairHeld() {
+					return false
+				}
+				for c, h := range hats {
+					if x := hatAction(h, pos[c]); x != "" && (x == a || x == partnerOf(a)) {
+						return false
+					}
+				}
+				keyAct[a] = true
+			case 0:
+				delete(keyAct, a)
+			}
+		case "abs":
+			h, ok := hats[e.Code]
+			if !ok {
+				continue
+			}
+			x := hatAction(h, e.Value)
+			if x != "" && x != hatAction(h, pos[e.Code]) {
+				if pairHeld() || keyAct[x] || keyAct[partnerOf(x)] {
+					return false
+				}
+				for c, o := range hats {
+					if c != e.Code && hatAction(o, pos[c]) != "" {
+						return false
+					}
+				}
+			}
+			pos[e.Code] = e.Value
+		}
+	}
+	return true
+}
